@@ -175,6 +175,15 @@ def gen_T08():
     src_43 = ast.unparse(find_def(t, 'do43x', 'Irc'))
     need(src_43.startswith("def do43x(self, msg, problem):\n    if not self.afterConnect:\n        newNick = self._getNextNick()\n        assert newNick != self.nick")
          and 'self.sendMsg(ircmsgs.nick(newNick))' in src_43, 'do43x changed')
+    # doCapDel: the capability leaves capabilities_ls AND capabilities_ack, independently of each other
+    dd = find_def(t, 'doCapDel', 'Irc')
+    loops = [n for n in dd.body if isinstance(n, ast.For)]
+    need(len(loops) == 1 and [ast.unparse(x) for x in loops[0].body] ==
+         ["cap = cap.split('=')[0]", 'try:\n    del self.state.capabilities_ls[cap]\nexcept KeyError:\n    pass',
+          'try:\n    self.state.capabilities_ack.remove(cap)\nexcept KeyError:\n    pass'], 'doCapDel loop changed')
+    src_ac = ast.unparse(find_def(t, '_addCapabilities', 'Irc'))
+    need("while item.startswith(('=', '~')):\n            item = item[1:]" in src_ac and "cap, value = item.split('=', 1)" in src_ac
+         and 'self.state.capabilities_ls[cap] = value' in src_ac and 'self.state.capabilities_ls[item] = None' in src_ac, '_addCapabilities changed')
     has_filter = any(isinstance(n, ast.FunctionDef) and n.name == 'filterSaslMechanisms' for n in irc.body)
     order = ['on_init_messages_sent', 'on_sasl_cap', 'on_sasl_auth_finished', 'on_cap_end', 'on_start_motd', 'on_end_motd', 'on_shutdown']
     out = '(* FSM states: ' + ', '.join('%s=%d' % kv for kv in sorted(states.items(), key=lambda kv: kv[1])) + ' *)\n'
